@@ -33,9 +33,9 @@ func c10(a *vlib.Args) {
 }
 
 type c10s struct {
-	r   *vlib.Result
-	a   *vlib.Args
-	buf buffer.Buffer
+	r          *vlib.Result
+	a          *vlib.Args
+	buf        buffer.Buffer
 	idx        int64
 	evals      int64
 	nontrivial int64
@@ -52,7 +52,6 @@ func (c *c10s) next() bool {
 	c.idx++
 	return c.a.Mine(c.idx)
 }
-
 
 func lattice64() (ints []int64, uints []uint64) {
 	seenI := map[int64]bool{}
@@ -585,4 +584,3 @@ func (c *c10s) bytesCase(n, fill int) {
 	}
 	c.probe("string", bits, b.Bytes(), sz)
 }
-
